@@ -138,6 +138,7 @@ def snapshot(sc):
         "starting": {g: [sc.gid.get(id(x), -1) for x in sc.node[g].starting_nodes] for g in sc.composites},
         "automate": {g: bool(sc.node[g].automate_execution) for g in sc.wfs},
         "failed": sorted(g for g, n in sc.node.items() if n.failed),
+        "parents": {g: (None if n.parent is None else sc.gid.get(id(n.parent), -1)) for g, n in sc.node.items()},
     }
 
 
@@ -146,6 +147,12 @@ def live_deps(sc):
     for g, n in sc.node.items():
         deps[g] = [sc.gid.get(id(c.owner), -1) for inp in n.inputs for c in inp.connections]
     return deps
+
+
+def live_slots(sc):
+    """gid -> input label -> owners of the connected upstream channels, in connection-list order"""
+    return {g: {lab: [sc.gid.get(id(c.owner), -1) for c in ch.connections] for lab, ch in n.inputs.items()}
+            for g, n in sc.node.items()}
 
 
 def live_parent(sc):
@@ -229,13 +236,14 @@ def unit_log(exec_log, t, parent, composites):
     while x is not None:
         anc.add(x)
         x = parent.get(x)
+    drivers = anc - {t}
     out = []
     for g in exec_log:
-        if g in composites and g in anc:
+        if g in composites and g in drivers:
             continue
         p, inside_unit = parent.get(g), False
         while p is not None:
-            if p not in anc:
+            if p not in drivers:
                 inside_unit = True
             p = parent.get(p)
         if not inside_unit:
@@ -256,7 +264,7 @@ def obs_lines(sc, rec, init_labels, parent):
         ("starting " + " ".join(f"{p}:{_nats(s['starting'][p])}" for p in sc.composites)).rstrip() + (
             "" if sc.composites else " "),
         ("automate " + " ".join(f"{p}:{int(s['automate'][p])}" for p in sc.wfs)).rstrip() + ("" if sc.wfs else " "),
-        f"failed {_nats(s['failed'])}",
+        f"failed {_nats(unit_log(s['failed'], rec['t'], parent, []))}",
     ]
 
 
@@ -285,6 +293,7 @@ def run_impl(case):
         "init": snapshot(sc),
         "ifs": {g: bool(n.inputs.condition.value) for g, n in sc.node.items() if type(n).__name__ == "If"},
         "links": _value_links(sc),
+        "slots": live_slots(sc),
     }
     recs = []
     try:
@@ -309,6 +318,7 @@ def run_impl(case):
                 "before": before,
                 "after": snapshot(sc),
                 "vals_before": vals_before,
+                "vals_after": _values(sc),
                 "ret": None if err is not None else term_str(_single(ret)),
                 "out": term_str(_single_out(sc.node[t])),
             }
@@ -582,7 +592,7 @@ def gen_scene(rng, max_leaf=4, clean=None, fault=None):
         cand = [g for g in all_leaves if str(g) in ids.fid]
         case["fails"] = rng.sample(cand, min(len(cand), rng.choice([1, 1, 2])))
     elif fault == "exec":
-        case["exec"] = [rng.choice(all_leaves)]
+        pass  # placed by `gen_cases` inside a closure that the chosen pull inspects
     elif fault == "cyclic":
         m = rng.choice(metas)
         terms = [g for g in m["leaves"] if str(g) in ids.fid]
@@ -616,6 +626,40 @@ def with_pulls(case, pulls):
     return json.loads(json.dumps(c))
 
 
+def spec_levels(case):
+    """[(owner gid or None, level spec)] outermost first; owner of the top level is the workflow (if any)"""
+    return _walk_levels(case["level"], case.get("wfgid") if case["top"] == "wf" else None, [])
+
+
+def spec_closure(case, t):
+    """(closure of t among its siblings following the generated data edges, owner gid of that level)"""
+    for owner, spec in spec_levels(case):
+        gids = {n["gid"] for n in spec["nodes"]}
+        if t not in gids:
+            continue
+        deps = {}
+        for dst, _slot, src in list(spec["edges"]) + [e for e in case["post"]["late_edges"] if e[0] in gids]:
+            deps.setdefault(dst, []).append(src)
+        seen, todo = {t}, [t]
+        while todo:
+            for j in deps.get(todo.pop(), []):
+                if j not in seen:
+                    seen.add(j)
+                    todo.append(j)
+        return seen, owner
+    return {t}, None
+
+
+def place_executor(rng, case, t, par):
+    cands, owner = spec_closure(case, t)
+    cands = sorted(cands)
+    while par and owner is not None and owner != case.get("wfgid"):
+        cl, up = spec_closure(case, owner)
+        cands += sorted(cl)
+        owner = up
+    return [rng.choice(cands)]
+
+
 def gen_cases(rng, tier):
     n_scenes = 150 if tier == "quick" else 900
     for k in range(n_scenes):
@@ -629,9 +673,233 @@ def gen_cases(rng, tier):
         for t in targets:
             par = rng.random() < 0.5
             pulls = [[t, int(par)]]
-            if rng.random() < 0.2:
+            if sc["_meta"]["fault"] == "exec":
+                sc["exec"] = place_executor(rng, sc, t, par)
+            elif rng.random() < 0.2:
                 pulls.append([rng.choice(leaves), int(rng.random() < 0.5)])
             yield with_pulls(sc, pulls)
             if tier == "thorough":
+                if sc["_meta"]["fault"] == "exec":
+                    sc["exec"] = place_executor(rng, sc, t, not par)
                 yield with_pulls(sc, [[t, int(not par)]])
     # a malformed stream is exercised by `corpus_malformed` through the driver directly
+
+
+# ----------------------------------------------------------------------------- oracle (independent of the model)
+
+
+def _ik(d):
+    return {int(k): v for k, v in d.items()}
+
+
+def _reach(deps, a):
+    """(nodes reachable from `a` through data dependencies, `a` included; is a cycle reachable)"""
+    seen, order, cyc = set(), [], False
+    state = {}
+
+    def go(x):
+        nonlocal cyc
+        st = [(x, iter(deps.get(x, [])))]
+        state[x] = 1
+        seen.add(x)
+        while st:
+            y, it = st[-1]
+            nxt = next(it, None)
+            if nxt is None:
+                state[y] = 2
+                order.append(y)
+                st.pop()
+                continue
+            if state.get(nxt) == 1:
+                cyc = True
+            elif nxt not in state:
+                state[nxt] = 1
+                seen.add(nxt)
+                st.append((nxt, iter(deps.get(nxt, []))))
+
+    go(a)
+    return seen, cyc
+
+
+def _levels(t, parents, parent):
+    lv = [t]
+    if parents:
+        p = parent.get(t)
+        while p is not None:
+            lv.insert(0, p)
+            p = parent.get(p)
+    return lv
+
+
+def _trigger(o, before_conns, drivers, log, failed_after, ifs):
+    """which emission made the outside node `o` run: look at who is wired to its run inputs"""
+    ranked = []
+    for inp in (6 * o, 6 * o + 1):
+        for c in before_conns.get(inp, []):
+            own, k = divmod(c, 6)
+            if own in drivers:
+                kind = {2: "driver-ran", 3: "driver-failed"}.get(k, "driver-other")
+                fired = (k == 3) == (own in failed_after)
+            elif k in (4, 5):
+                kind, fired = "if-branch", own in log and ifs.get(own) == (k == 4)
+            elif k == 3:
+                kind, fired = "failed-signal", own in log and own in failed_after
+            else:
+                kind, fired = "ran", own in log
+            ranked.append((0 if fired else 1, ["if-branch", "failed-signal", "driver-ran", "driver-failed", "ran",
+                                               "driver-other"].index(kind), kind))
+    ranked.sort()
+    return ranked[0][2] if ranked else "unwired"
+
+
+def _ref_value(w, rec, levels, allowed, fids):
+    """the term the target must return: the wrapped functions composed in plain Python along the data
+    connections (first connection holding data wins; an unconnected input keeps its value; a macro that
+    runs as one unit is a black box whose observed output is taken as given)"""
+    slots, links = _ik(w["slots"]), w["links"]
+    comps, ifs = set(w["composites"]), _ik(w["ifs"])
+    vb, va = rec["vals_before"], rec["vals_after"]
+    vin, vout_after = _ik(vb["in"]), _ik(va["out"])
+    drivers = set(levels[:-1])
+    memo = {}
+
+    def slotval(g, lab):
+        for src in slots.get(g, {}).get(lab, []):
+            v = T(src)
+            if v != "ND":
+                return v
+        link = links.get(f"{g}.{lab}")
+        if link is not None and link[0] in drivers and slots.get(link[0], {}).get(link[1]):
+            return slotval(link[0], link[1])
+        return vin[g][lab]
+
+    def T(g):
+        if g in memo:
+            return memo[g]
+        memo[g] = "?"
+        if g in comps or g not in allowed:
+            v = vout_after.get(g, "?")
+        elif g in ifs:
+            c = slotval(g, "condition")
+            v = "False" if c in ("False", "0", "None", "''", "()", "[]", "{}") else "True"
+        elif fids.get(str(g)) is not None:
+            v = f"f{fids[str(g)]}(" + ",".join(slotval(g, s) for s in "abc") + ")"
+        else:  # a UserInput node kept inside a macro
+            labs = list(slots.get(g, {}))
+            v = slotval(g, labs[0]) if labs else "?"
+        memo[g] = v
+        return v
+
+    t = levels[-1]
+    if t in comps:
+        return None
+    return T(t)
+
+
+def _oracle_rec(case, w, rec, fids):
+    out = []
+    parent, deps = _ik(w["parent"]), _ik(w["deps"])
+    comps, ifs = set(w["composites"]), _ik(w["ifs"])
+    t, par, outcome = rec["t"], rec["parents"], rec["outcome"]
+    levels = _levels(t, par, parent)
+    drivers = set(_levels(t, True, parent)[:-1])  # the direct parent drives the run even without the option
+    execs = set(case.get("exec", []))
+
+    def fail(clause, detail, **sig):
+        out.append({"clause": clause, "detail": f"pull({t}, parents={int(par)}) -> {outcome}: {detail}",
+                    "signature": {"clause": clause, **sig}})
+
+    # which nodes may run, level by level, up to the first level that must refuse
+    allowed, level_of, refusing, closures = set(), {}, None, {}
+    for j, a in enumerate(levels):
+        cl, cyc = _reach(deps, a)
+        closures[a] = cl
+        if cyc:
+            refusing = (j, "cyclic")
+        elif cl & execs:
+            refusing = (j, "exec")
+        elif any(x < 0 or parent.get(x) != parent.get(a) for x in cl):
+            refusing = (j, "mixed")
+        if refusing:
+            break
+        for x in cl - {a}:
+            allowed.add(x)
+            level_of[x] = j
+    if refusing is None:
+        allowed.add(t)
+        level_of[t] = len(levels) - 1
+
+    log = unit_log(rec["exec"], t, parent, comps)
+    failed_after = set(rec["after"]["failed"])
+
+    # 1. nothing else runs
+    outside = [g for g in log if g not in allowed]
+    if outside:
+        trig = _trigger(outside[0], _ik(rec["before"]["conns"]), drivers, log, failed_after, ifs)
+        fail(f"runs-outside-closure/{trig}", f"node {outside[0]} is not upstream of the target but ran; executed {log}, "
+             f"closure {sorted(allowed)}", trigger=trig)
+    inside = [g for g in log if g in allowed]
+    # 2. each once
+    twice = sorted({g for g in inside if inside.count(g) > 1})
+    if twice:
+        fail("runs-twice", f"nodes {twice} ran more than once: {log}")
+    # 3. dependency order, level by level, the target last
+    pos = {}
+    for k, g in enumerate(inside):
+        pos.setdefault(g, k)
+    bad_order = None
+    for g in inside:
+        for d in deps.get(g, []):
+            if d in allowed and level_of.get(d) == level_of.get(g) and (d not in pos or pos[d] > pos[g]):
+                bad_order = bad_order or (g, d)
+    lv_seq = [level_of[g] for g in inside]
+    if bad_order:
+        fail("dependency-order", f"node {bad_order[0]} ran before its data source {bad_order[1]}: {log}")
+    elif lv_seq != sorted(lv_seq) or (t in inside and inside[-1] != t):
+        fail("dependency-order", f"levels / target out of order: {log}")
+    # 4. complete on success; a cyclic pull cannot succeed
+    if outcome == "ok":
+        missing = sorted(allowed - set(inside))
+        if refusing is not None and refusing[1] == "cyclic":
+            fail("cyclic-not-refused", f"the data of level target {levels[refusing[0]]} is cyclic but the pull returned")
+        elif missing:
+            fail("closure-incomplete", f"upstream nodes {missing} did not run: {log}")
+    # 5. the graph is as before, whatever the outcome
+    b, a = rec["before"], rec["after"]
+    bc, ac = _ik(b["conns"]), _ik(a["conns"])
+    diffc = sorted(c for c in set(bc) | set(ac) if set(bc.get(c, [])) != set(ac.get(c, [])))
+    if diffc:
+        c = diffc[0]
+        fail("signals-restored", f"channel {c} (node {c // 6}, {list(CH)[c % 6]}) had {bc.get(c, [])}, now {ac.get(c, [])}",
+             outcome=outcome, channel=list(CH)[c % 6])
+    if _ik(b["labels"]) != _ik(a["labels"]) or b["keys"] != a["keys"]:
+        fail("labels-restored", f"labels {b['labels']} -> {a['labels']}", outcome=outcome)
+    sb, sa = _ik(b["starting"]), _ik(a["starting"])
+    if {k: sorted(v) for k, v in sb.items()} != {k: sorted(v) for k, v in sa.items()}:
+        fail("starting-restored", f"starting nodes {sb} -> {sa}", outcome=outcome)
+    if _ik(b["parents"]) != _ik(a["parents"]):
+        fail("parent-restored", f"parents {b['parents']} -> {a['parents']}", outcome=outcome)
+    if _ik(b["automate"]) != _ik(a["automate"]):
+        fail("automate-restored", f"automate_execution {b['automate']} -> {a['automate']}", outcome=outcome)
+    # 6. returned value
+    if outcome == "ok" and refusing is None and not out:
+        ref = _ref_value(w, rec, levels, allowed, fids)
+        if ref is not None and (rec["ret"] != ref or rec["out"] != ref):
+            fail("value", f"returned {rec['ret']} (output channel {rec['out']}), reference {ref}")
+    return out
+
+
+def oracle(case, impl):
+    if "recs" not in impl:
+        return []
+    out = []
+    for rec in impl["recs"]:
+        out.extend(_oracle_rec(case, impl["world"], rec, impl.get("fids", {})))
+    return out
+
+
+def nontrivial(case, impl):
+    for rec in impl.get("recs", []):
+        if rec["outcome"] in ("ok", "failed") and any(len(o[0]) >= 2 for o in rec["obs"].values()):
+            return True
+    return False
